@@ -1014,6 +1014,97 @@ def run(keys):
 ''', [("run", [(["a", "bb"],), (["boom", "a"],), ([],)])])
 
 
+# ---- a generator helper consumed by a for loop
+case('''
+import heapq
+
+class Cache:
+    def __init__(self, items, limit):
+        self.heap = list(items)
+        heapq.heapify(self.heap)
+        self.usage = sum(s for s, _n, _w in self.heap)
+        self.limit = limit
+        self.log = []
+
+    def _candidates(self, claim):
+        """oldest first, while the claim does not fit; writers are put back afterwards"""
+        writing = []
+        while self.heap and self.usage + claim > self.limit:
+            size, name, w = heapq.heappop(self.heap)
+            if w:
+                writing.append((size, name, w))
+            else:
+                yield size, name
+        for rec in writing:
+            heapq.heappush(self.heap, rec)
+
+    def recover(self, claim):
+        for size, name in self._candidates(claim):
+            self.usage -= size
+            self.log.append(name)
+        return self.usage + claim <= self.limit
+
+def run(items, limit, claim):
+    c = Cache(items, limit)
+    ok = c.recover(claim)
+    return ok, c.log, sorted(c.heap), c.usage
+''', [("run", [([(5, "a", False), (3, "b", True), (4, "c", False)], 10, 4), ([(5, "a", True)], 4, 2), ([], 3, 1), ([(1, "a", False), (2, "b", False)], 10, 1)])])
+
+
+# ---- a record type that is a tuple with named fields
+case('''
+from typing import Any, NamedTuple
+
+class Entry(NamedTuple):
+    """(writing, size, future)"""
+    writing: bool
+    size: Any
+    future: Any
+
+class Other:
+    def __init__(self):
+        self.size = 7
+
+def run(n):
+    table = {}
+    table["a"] = Entry(writing=False, size=n, future="f")
+    table["b"] = Entry(True, n + 1, None)
+    info = table.get("a")
+    total = 0
+    if info is not None and not info.writing:
+        total += info.size
+    w, s, f = table["b"]
+    return total, table["b"].writing, info.future, (w, s, f), table["a"] == (False, n, "f"), table["a"][1]
+''', [("run", [(3,), (0,)])])
+
+
+case('''
+from typing import Any, NamedTuple
+
+class Entry(NamedTuple):
+    writing: bool
+    size: Any
+    future: Any
+
+def run(n):
+    table = {}
+    log = []
+    def note(x):
+        log.append(x)
+        return x
+    table["a"] = Entry(writing=False, size=n, future="f")
+    table["b"] = Entry(True, n + 1, None)
+    fu, wr, sz = note("fut"), note(True), note(1)
+    table["c"] = Entry(future=fu, writing=wr, size=sz)
+    info = table.get("a")
+    total = 0
+    if info is not None and not info.writing:
+        total += info.size
+    w, s, f = table["b"]
+    return total, table["b"].writing, info.future, (w, s, f), table["a"] == (False, n, "f"), table["a"][1], log, tuple(table["c"])
+''', [("run", [(3,), (0,)])])
+
+
 def outcome(ns, fn, args):
     import copy
     try:
